@@ -633,3 +633,69 @@ pub fn c03_default_squeeze_params_match_spec_larger() {
     default_squeeze_band((17, 64), (17, 64), true, false, true);
     kani::cover!(true, "all bands executed");
 }
+
+/// ISO/IEC 18181-1 H.6.4 (inverse palette), implicit entries for `index >= nb_colours`, evaluated
+/// in unbounded (here 64-bit) arithmetic as the specification's pseudo-code is.
+fn spec_palette_implicit(index: i32, nb_colours: i32, c: u32, bit_depth: u32) -> i64 {
+    let index = (index - nb_colours) as i64;
+    let max = (1i64 << bit_depth) - 1;
+    if index < 64 {
+        ((index >> (2 * c)) % 4) * max / 4 + (1i64 << bit_depth.saturating_sub(3))
+    } else {
+        let mut index = index - 64;
+        let mut i = 0;
+        while i < c {
+            index /= 5;
+            i += 1;
+        }
+        (index % 5) * max / 4
+    }
+}
+
+fn palette_implicit_case(bit_depth: u32) {
+    use jxl_grid::SharedSubgrid;
+    use jxl_modular::verif::palette as pv;
+    let index: i32 = kani::any();
+    kani::assume(index >= 1 && index < 1 + 64 + 125); // one explicit colour, then both cubes
+    let pal_buf = [7i32, 8, 9]; // 1 colour x 3 channels
+    let palette = SharedSubgrid::from_buf(&pal_buf[..], 1, 3, 1);
+    let (mut b0, mut b1, mut b2) = ([index], [0i32], [0i32]);
+    let targets = vec![
+        MutableSubgrid::from_buf(&mut b0[..], 1, 1, 1),
+        MutableSubgrid::from_buf(&mut b1[..], 1, 1, 1),
+        MutableSubgrid::from_buf(&mut b2[..], 1, 1, 1),
+    ];
+    let pal = pv::new_palette(0, 3, 1, 0, Predictor::Zero, None);
+    pv::inverse_inner::<i32>(&pal, palette, targets, bit_depth);
+    assert!(b0[0] as i64 == spec_palette_implicit(index, 1, 0, bit_depth));
+    assert!(b1[0] as i64 == spec_palette_implicit(index, 1, 1, bit_depth));
+    assert!(b2[0] as i64 == spec_palette_implicit(index, 1, 2, bit_depth));
+    kani::cover!(index < 65, "small cube entry");
+    kani::cover!(index >= 65, "large cube entry");
+}
+
+// @prop C03 C01
+// @tier quick
+// @unit jxl_modular::transform::palette::Palette::inverse_inner (implicit entries, wide samples)
+// @sym a 1x1 image over 3 channels with one explicit colour; the index any implicit entry of the small (64) or large (125) cube; declared bit depth 8
+// @bound one pixel, three channels (libjxl and the specification's pseudo-code differ for channels >= 3: open question in DESIGN 8.9, not encoded), no delta entries (they go through the predictor harnesses)
+// @oblig every channel of an implicit palette entry equals the value of H.6.4 computed without overflow; no panic
+#[kani::proof]
+#[kani::unwind(6)]
+pub fn c03_palette_implicit_entries_depth_8() {
+    palette_implicit_case(8);
+}
+
+// @prop C03 C01
+// @tier quick
+// @unit jxl_modular::transform::palette::Palette::inverse_inner (implicit entries, wide samples)
+// @sym as c03_palette_implicit_entries_depth_8 with the declared bit depth any value 1..=31 (31 = the widest integer depth the header parser accepts)
+// @bound one pixel, three channels, no delta entries; depth 32 (float samples) is a separate harness
+// @oblig as above for every depth: the product (index % 4) * (2^depth - 1) must not overflow the 32-bit intermediate (checked builds panic, optimised builds wrap to a wrong sample)
+#[kani::proof]
+#[kani::unwind(6)]
+pub fn c03_palette_implicit_entries_any_integer_depth() {
+    let d: u32 = kani::any();
+    kani::assume(d >= 1 && d <= 31);
+    palette_implicit_case(d);
+}
